@@ -39,12 +39,11 @@ def unknown_value(prog, st, t, tag, what):
             return none()
         return some(unknown_value(prog, st, t[len("Option<"):-1], tag + "_some", what))
     if t.startswith("Vec<") and t.endswith(">"):
-        # empty, or one element of the element type (as far as it can be made up)
-        b = z3.Bool(tag + "_empty")
-        if st.choose([b, z3.Not(b)]) == 0:
-            return SVec([])
+        # empty, or one or two elements of the element type (as far as they can be made up): code that pops one and looks at the next is reached
+        n = z3.Int(tag + "_len")
+        k = st.choose([n == 0, n == 1, z3.Not(z3.Or(n == 0, n == 1))])
         try:
-            return SVec([unknown_value(prog, st, t[4:-1], tag + "_0", what)])
+            return SVec([unknown_value(prog, st, t[4:-1], "%s_%d" % (tag, i), what) for i in range(k)])
         except Exception:       # noqa
             return SVec([])
     if t.startswith("(") and t.endswith(")"):
@@ -63,9 +62,42 @@ def unknown_value(prog, st, t, tag, what):
             parts.append(cur)
         return Agg("tuple", None, [unknown_value(prog, st, x, "%s_%d" % (tag, i), what) for i, x in enumerate(parts)])
     if t == "Rank":
-        return Agg("adt:Rank", prog.enums["Rank"]["Other"], [SString([st.sym_char(tag + "_text")]), st.sym_bv(tag + "_num", 8)])
-    if t.startswith("HashMap<"):
-        return SMap(tag)
+        # a candidate of any class with a one-character text
+        kinds = [k for k in ("Other", "Emoji", "First", "Last") if k in prog.enums.get("Rank", {})]
+        n = z3.Int(tag + "_kind")
+        k = kinds[st.choose([n == i for i in range(len(kinds) - 1)] + [z3.Not(z3.Or([n == i for i in range(len(kinds) - 1)]))])] if len(kinds) > 1 else kinds[0]
+        nf = len(prog.enum_fields.get(("Rank", k), [])) if hasattr(prog, "enum_fields") else 2
+        fields = [SString([st.sym_char(tag + "_text")])] + ([st.sym_bv(tag + "_num", 8)] if (nf or (1 if k == "First" else 2)) > 1 else [])
+        return Agg("adt:Rank", prog.enums["Rank"][k], fields)
+    if t.startswith("HashMap<") and t.endswith(">"):
+        # any content: every key asked for is present or absent (the environment's choice), its value an unconstrained value of the value type
+        parts, depth, cur = [], 0, ""
+        for ch in t[len("HashMap<"):-1]:
+            if ch in "<([":
+                depth += 1
+            elif ch in ">)]":
+                depth -= 1
+            if ch == "," and depth == 0:
+                parts.append(cur)
+                cur = ""
+            else:
+                cur += ch
+        parts.append(cur)
+        vt = parts[1].strip() if len(parts) > 1 else ""
+        count = [0]
+
+        def oracle(it2, m, key):
+            count[0] += 1
+            if count[0] > 2:
+                return None
+            b = z3.Bool("%s_has_%d" % (tag, count[0]))
+            if it2.st.choose([b, z3.Not(b)]) == 0:
+                try:
+                    return unknown_value(prog, it2.st, vt, "%s_v%d" % (tag, count[0]), what)
+                except Exception:       # noqa
+                    return None
+            return None
+        return SMap(tag, [], oracle)
     return Opaque(what)
 
 
